@@ -202,7 +202,28 @@ def failing_target(nrec: int, kind: str, n: int) -> bytes:
     return header(0x8400, 0, nrec, 0, 0) + recs + tail
 
 
+def low_byte_alias(k: int, first_off: int = 12) -> bytes:
+    """Three records: a name at offset `first_off`, another name exactly k x 256 octets further on, and a record whose owner
+    is a pointer to the second - its low octet alone is the offset of the first."""
+    a = b"\x02aa\x05local\x00"
+    pad = k * 256 - (len(a) + 10)  # rdata length of the first (TXT) record so that the second owner starts k*256 later
+    first = a + struct.pack(">HHLH", 16, 1, 120, pad) + bytes([pad - 1 if pad <= 256 else 255]) + b"x" * (pad - 1)
+    if pad > 256:
+        # several character-strings: 255 + 1 length octets each
+        body, left = b"", pad
+        while left > 0:
+            n = min(255, left - 1)
+            body += bytes([n]) + b"y" * n
+            left -= n + 1
+        first = a + struct.pack(">HHLH", 16, 1, 120, pad) + body
+    second = b"\x02zz\x07example\x00" + struct.pack(">HHLH", 1, 1, 120, 4) + b"\x0a\x00\x00\x01"
+    third = struct.pack(">H", 0xC000 | (first_off + k * 256)) + struct.pack(">HHLH", 1, 1, 120, 4) + b"\x0a\x00\x00\x02"
+    return header(0x8400, 0, 3, 0, 0) + first + second + third
+
+
 def families(tier: str) -> Iterator[bytes]:
+    for k in (1, 2, 3, 8, 30):
+        yield low_byte_alias(k)
     for nrec, kind, n in ((100, "labels", 100), (300, "labels", 130), (300, "labels", 1000), (344, "labels", 1890),
                           (500, "labels", 700), (560, "labels", 250), (560, "hops", 126), (560, "hops", 130), (400, "hops", 1400),
                           (341, "label-levels", 15), (200, "label-levels", 23), (450, "label-levels", 8), (540, "label-levels", 3)):
